@@ -282,7 +282,9 @@ func runProfileMany(p profSpec, G, drains int) profMany {
 		for _, f := range fs {
 			if f < 0 {
 				dr.Neg = true
-				f = -f
+				if f = -f; f < 0 {
+					f = 1<<63 - 1
+				}
 			}
 			dr.Fins = append(dr.Fins, vt.Limbs(f))
 		}
@@ -295,7 +297,9 @@ func relLimbs(t, t0 time.Time, neg *bool) []int {
 	d := t.Sub(t0)
 	if d < 0 {
 		*neg = true
-		d = -d
+		if d = -d; d < 0 { // -MinInt64 overflows (an instant computed from -Inf)
+			d = 1<<63 - 1
+		}
 	}
 	return vt.Limbs(int64(d))
 }
